@@ -52,6 +52,7 @@ type World struct {
 	bufs []*bufEntry
 
 	identYOdd    int // -1 unknown; convention observed for IsYOdd(identity)
+	scribbleObs  bool // the harness overwrites every value its own observations obtain
 	mutatedSince bool
 
 	// which (byte position, nibble, index 0..15) windows the constant-time
@@ -252,6 +253,8 @@ func (w *World) adopt(i int, after string) {
 // Run executes one seeded history.
 func Run(run *kernel.Run, prop string) {
 	w := &World{r: run, t: run.T, prop: prop}
+	w.scribbleObs = w.t.Chance("cfg", "scribble_observations", 3, 4)
+	run.Res.Cfg["scribble_observations"] = w.scribbleObs
 	w.buildFixture()
 	weights := w.opWeights()
 	total := 0
